@@ -1,12 +1,14 @@
 import Drivers.Proto
 -- one import line per driver (union-merged)
 import Drivers.Tables
+import Drivers.Codec
 
 /-! `refdrv <driver> [args]` : dispatch to a line-protocol driver. One match arm per driver, on one line. -/
 
 def main (args : List String) : IO UInt32 := do
   match args with
   | "tables" :: rest => Drivers.Tables.run rest
+  | "codec" :: rest => Drivers.Codec.run rest
   | _ =>
     IO.eprintln s!"refdrv: unknown driver {args}"
     return 2
